@@ -16,7 +16,7 @@ Init == fi \in 1..Len(Lens) /\ m = [kind |-> "none", at |-> 0, val |-> 0]
 Mutations(n) ==
   {[kind |-> "truncate", at |-> k, val |-> 0] : k \in 0..(n - 1)}
   \cup {[kind |-> "insert", at |-> k, val |-> v] : k \in 0..n, v \in Foreign}
-  \cup {[kind |-> "replace", at |-> k, val |-> v] : k \in 0..(n - 1), v \in {0, 255, 34, 92}}
+  \cup {[kind |-> "replace", at |-> k, val |-> v] : k \in 0..(n - 1), v \in {0, 255, 34, 92, 45}}      \* NUL 0xFF " \ -
   \cup {[kind |-> "double", at |-> k, val |-> 0] : k \in 0..(n - 1)}
 Next == m.kind = "none" /\ m' \in Mutations(Lens[fi].len) /\ UNCHANGED fi
 Spec == Init /\ [][Next]_<<fi, m>>
